@@ -188,6 +188,9 @@ var kinds = map[string]kindInfo{
 	"mp":   {"map[string]int", "rt.MkMp", "rt.PrMp", 8},
 	"if":   {"rt.If", "rt.MkIf", "rt.PrIf", 9},
 	"rune": {"rune", "rt.MkRune", "rt.PrRune", 0},
+	"tg":   {"struct {\n\tA int `layout:\"%5d %s %%\"`\n}", "rt.MkTg", "rt.PrTg", 10},
+	"uni":  {"rt.Ünï", "rt.MkUni", "rt.PrUni", 10},
+	"fn":   {"func(int) int", "rt.MkFn", "rt.PrFn", 10},
 }
 
 // Mem parameters: content-based classes with two representatives.
@@ -199,6 +202,9 @@ var memKinds = map[string]kindInfo{
 	"pt":  {"*rt.St", "rt.MemMkPt", "rt.MemPrPt", 6},
 	"ssl": {"[]string", "rt.MemMkSsl", "rt.MemPrSsl", 7},
 	"mp":  {"map[string]int", "rt.MemMkMp", "rt.MemPrMp", 8},
+	"ap":  {"[2]*rt.St", "rt.MemMkAp", "rt.MemPrAp", 6},
+	"sp":  {"rt.SP", "rt.MemMkSp", "rt.MemPrSp", 6},
+	"asp": {"[2]rt.SP", "rt.MemMkAsp", "rt.MemPrAsp", 7},
 	"isl": {"[]int", "rt.MemMkIsl", "rt.MemPrIsl", 7},
 	"ip2": {"*rt.P2", "rt.MemMkIp2", "rt.MemPrIp2", 6},
 	"sp2": {"[]rt.P2", "rt.MemMkSp2", "rt.MemPrSp2", 7},
